@@ -584,7 +584,7 @@ def gen_pivots(rows_x1, rows_x2, wide):
 
 
 def check_pivot(case):
-    from pyg_base import dictable
+    from pyg_base import dictable, last
     out = Out()
     a = [float('nan') if PA[i] == 'NAN' else PA[i] for i in case['a']]
     b = [PB[i] for i in case['b']]
@@ -683,6 +683,22 @@ def check_pivot(case):
                 break
         if bad:
             continue
+        # ---- y given as a FORMULA of the y column (lambda ys: ys): the same pivot, and the table it was called on stays what it was
+        if ycol == 'ys' and n and not case.get('_ydone'):
+            case['_ydone'] = True          # once per table (the first combination on the string-valued y column)
+            d2 = build()
+            snap2 = _snap(d2)
+            try:
+                P2 = getattr(d2, method)(xarg, lambda ys: ys, zcol, list(agg) if isinstance(agg, list) else agg)
+                out.call()
+                k2, r2 = _rows(P2)
+                if set(k2) != set(kp) or not _multiset_eq(r2, rp):
+                    out.viol('pivot-wrong-cell', '%s with y = lambda ys: ys: columns %s rows %s, the named-column spelling gives columns %s rows %s' % (label, k2, show(r2, 300), kp, show(rp, 300)),
+                             op='xyz', yform='callable', **sig)
+            except Exception as e:
+                out.viol('pivot-raised', '%s with y = lambda ys: ys raised %s: %s' % (label, type(e).__name__, e), op='xyz', empty=False, yform='callable', **sig)
+            if not _unchanged(d2, snap2):
+                out.viol('operand-mutated', '%s with y = lambda ys: ys changed the table it was called on: columns now %s' % (label, list(d2.keys())), op='xyz', yform='callable', **sig)
         # ---- unpivot, then drop the rows whose z is None
         snapP = _snap(P)
         try:
@@ -721,6 +737,25 @@ def check_pivot(case):
                              % (label, xlist, ycol, ylabels[::-1], zcol, show(want, 500), show(got2, 500)), op='unpivot', labels='dict-reversed', **sig)
             except Exception as e:
                 out.viol('unpivot-raised', '%s then unpivot(%r, {%r: %r}, %r) raised %s: %s' % (label, xlist, ycol, ylabels[::-1], zcol, type(e).__name__, e), op='unpivot', labels='dict-reversed', **sig)
+    # ---- y LABELS that are spelt like the names under which y and z are unpivoted ('lab', 'val'): they are data like any other label
+    if n:
+        out.sub()
+        kcol = list(cols[A]) if case['x'] == 'a' else list(range(n))
+        labs = ['lab' if i % 2 == 0 else 'val' for i in range(n)]
+        try:
+            T = dictable(k=[repr(v) for v in kcol], lab=list(labs), val=[10 * i for i in range(n)])
+            PV = T.xyz('k', 'lab', 'val', last)
+            UV = PV.unpivot('k', 'lab', 'val')
+            out.call(2)
+            wantv = {}
+            for kv, lv, zv in zip(T['k'], labs, T['val']):
+                wantv[(kv, lv)] = zv
+            gotv = [(r['k'], r['lab'], r['val']) for r in _rows(UV)[1] if r.get('val') is not None]
+            if sorted(gotv) != sorted((kv, lv, zv) for (kv, lv), zv in wantv.items()):
+                out.viol('unpivot-not-original', "xyz('k', 'lab', 'val', last).unpivot('k', 'lab', 'val') with the labels 'lab' / 'val' on k=%s: got %s, expected %s" % (
+                    show(list(T['k'])), sorted(gotv), sorted((kv, lv, zv) for (kv, lv), zv in wantv.items())), op='unpivot', labels='named-like-y-z')
+        except Exception as e:
+            out.viol('unpivot-raised', "pivot / unpivot with the labels 'lab' / 'val' raised %s: %s" % (type(e).__name__, e), op='unpivot', labels='named-like-y-z')
     return out
 
 
